@@ -364,6 +364,9 @@ func (r *Replica) Close() {
 	_ = os.RemoveAll(r.Dir)
 }
 
+// Closed reports whether the replica was closed or abandoned.
+func (r *Replica) Closed() bool { return r.closed }
+
 // Abandon drops the replica without closing (simulated process death); directory is removed by the caller later.
 func (r *Replica) Abandon() { r.closed = true }
 
